@@ -321,6 +321,99 @@ PROPS = {
      'partial': ['EV+ images: table-level oracle only (no edge-valued tree model)',
                  'real-valued products on the dyadic grid only (float rounding not modelled)',
                  'C++ level-skipping shortcuts covered through uniqueness, not as a refinement proof']},
+    "C14": {'title': 'Writing functions to an exchange file and reading them back is lossless',
+     'theorems': ['Meddly.DD.canon',
+                  'Meddly.Dump.check_sound',
+                  'Meddly.Dump.unfold_inj',
+                  'Meddly.Dump.evalFast_eq_evalChild',
+                  'Meddly.XFile.read_write_tree',
+                  'Meddly.XFile.read_write_unfold',
+                  'Meddly.XFile.read_write_length',
+                  'Meddly.XFile.read_write_eval',
+                  'Meddly.XFile.read_same_store',
+                  'Meddly.XFile.read_canonical',
+                  'Meddly.XFile.read_write_eval_cross',
+                  'Meddly.XFile.read_write_eval_quasi',
+                  'Meddly.XFile.read_write_eval_noident',
+                  'Meddly.XFile.decode_encode',
+                  'Meddly.XFile.read_counts_exact',
+                  'Meddly.XFile.rebuild_of_Red',
+                  'Meddly.XFile.rebuild_eval',
+                  'Meddly.XFile.insertNode_spec',
+                  'Meddly.XFile.order_ok',
+                  'Meddly.XFile.readF_writeF'],
+     'quick': [{'family': 'io', 'flavor': 'plain', 'args': {}}],
+     'thorough': [{'family': 'io', 'flavor': 'asan', 'args': {}}],
+     'leanchecker': ['MeddlyModel.Ops.ExchangeFileProofs'],
+     'design_ref': 'DESIGN.md §5 C14',
+     'level_text': 'Lean model of mdd_writer/mdd_reader down to tokens (marking, bottom-up numbering by position, one record per node in sparse (negative size + '
+                   'index list) or truncated-full form chosen by an ARBITRARY storage policy, root list; reader = per-record resolve through the file-index map + '
+                   'createReducedNode without incoming index on a unique-table store). Theorems for every store, root list (shared sub-graphs, terminal and '
+                   'repeated roots, empty list), domain and reduction rule: read_write_unfold/read_write_eval/read_write_length - reading what a canonical forest '
+                   'wrote into ANY well-formed forest of the same shape gives back the same trees, hence the same functions, in the same order; read_same_store - '
+                   'into the writer itself: the identical edges and no new node; read_canonical - the receiver still passes the verified canonical-form '
+                   "certificate; read_write_tree/read_write_eval_cross/read_write_eval_quasi - across rules the file's graph is interpreted under the READER's "
+                   'rule, and quasi-reduced writers are lossless for every reader; decode_encode - the token level is lossless for every sparse/full choice; '
+                   'read_counts_exact - on EVERY file the reader accepts, its link/unlink bookkeeping (link per resolved child, unlinkAllDown on duplicate / '
+                   'redundant elimination, link per root, release of the map) leaves every reference count equal to the recount. Tie: differential runs of the '
+                   'real writer/reader over every forest kind (MT bool/int/real, EV+, EV*, index sets; all rules), in-memory streams and files, random storage '
+                   'policies on both sides, three receivers (same forest, pre-populated forest of the same kind, forest created from the file), tables '
+                   'before/after compared exactly, == against the originals and against equal functions already held, audits (certificate + exact reference '
+                   'recount) of the receiver, and a replay of the Lean read(write(dump)) whose result must be isomorphic to the real receiver, node for node.',
+     'level_note': 'Theorems are about the Lean model; the tie to /repo is the sampled correspondence run. Edge values (EV+/EV*) and the index-set cardinality '
+                   'header are NOT in the Lean model: they are covered by the differential run (tables, per-node header sequence). Reference counts are modelled '
+                   'as integers (no counter widths: C06) and tied by the recount audit and the leak check of the run. Decimal printing/parsing of reals is not '
+                   'modelled: the run compares the floats exactly (MT real terminals are printed with 11, EV* edge values with 6 significant digits; generators '
+                   'use values that need the printed precision for MT and powers of two for EV*). Malformed files are outside the property (C16).',
+     'technique': "Lean 4 proof (forward simulation of the reader against the writer's numbering; certificate transfer) + differential round trips + structural "
+                  'replay of the model on dumps of the real forests',
+     'partial': ['edge values and the index-set header only by correspondence (no Lean model)',
+                 'decimal formatting of reals not modelled',
+                 'FINDING C14-F1: domain::create(input&) reverses the variable order written by domain::write (probe case reports it on every run)']},
+    "C16": {'title': 'Misuse is rejected with the documented error and leaves all functions intact',
+     'theorems': ['Meddly.Errors.precheck_total_partial',
+                  'Meddly.Errors.precheck_sound_partial',
+                  'Meddly.Errors.lax_exact',
+                  'Meddly.Errors.precheck_complete',
+                  'Meddly.Errors.crash_only_nofs',
+                  'Meddly.Errors.codes_documented',
+                  'Meddly.Errors.domain_only',
+                  'Meddly.Errors.goodA_all',
+                  'Meddly.Errors.insert_monotone',
+                  'Meddly.Errors.error_keeps_state',
+                  'Meddly.Errors.apply2E_sound',
+                  'Meddly.Dump.check_sound',
+                  'Meddly.Dump.unfold_inj',
+                  'Meddly.C19.int_overflow',
+                  'Meddly.C19.int_roundtrip'],
+     'quick': [{'family': 'errors', 'flavor': 'plain', 'args': {}}],
+     'thorough': [{'family': 'errors', 'flavor': 'asan', 'args': {}}],
+     'leanchecker': ['MeddlyModel.Ops.ErrorsTable', 'MeddlyModel.Ops.Errors'],
+     'design_ref': 'DESIGN.md §5 C16',
+     'level_text': 'precheck = the decision table of every constructor / factory of the catalogue (39 operations), transcribed from the code in the order of its '
+                   'tests; compatible = the documented requirements, declaratively; lax = the documented requirements no constructor tests. Theorems, by kernel '
+                   "evaluation of the WHOLE finite table (about 45 000 rows, lifted to every legal forest kind): lax_exact (lax is exactly 'incompatible and "
+                   "accepted'), precheck_total_partial / precheck_sound_partial (outside lax: incompatible => rejected with a code, accepted => compatible), "
+                   'precheck_complete (compatible => accepted), crash_only_nofs, codes_documented, domain_only. error_keeps_state / insert_monotone: whatever '
+                   'nodes an aborted operation leaves in the store, every handle obtained before unfolds to the same tree, evaluates to the same values and stays '
+                   'canonical; apply2E_sound: an apply whose scalar operation can fail either fails as a whole with an error the scalar operation really raised, '
+                   'or returns exactly the total result. Tie: the real library is run over the full table (every operation x 13 forest kinds cubed x '
+                   'same/different domain: 125 000 calls quick, 440 000 thorough) and the observed code of every row must equal precheck; deep run-time errors '
+                   '(zero divisor / infinite subtrahend / terminal overflow planted at a random assignment of a large operand, with cold and warm compute tables), '
+                   'values around +-2^30 through four API entry points, 23 scripted misuses (foreign or detached result edge, wrong minterm shape/domain, '
+                   'exhausted iterator, destroyed forest ...): observed code = documented code, all held edges re-read, canonical-form certificate and one-sided '
+                   'reference recount of every involved forest, follow-up operation against the oracle.',
+     'level_note': 'The full-strength precheck_total is false for the code that exists: lax_exact delimits the gap (arithmetic on Boolean forests, comparison of '
+                   'index sets, non-Boolean relation or foreign result forest in image/reachability, vector-matrix product over non-MT vectors). Where accepted '
+                   'misuse (or, F1, a constructor) makes the unchanged library crash, the table steers away by default (rows are still decided through build()); '
+                   '--probe 1 reproduces each class in a forked child. Aborted operations leak references (stored in-count above the recount): reported as '
+                   'information (leakinfo), the audit is one-sided (never below) because the property demands canonical and usable, not leak-free. C++ unwinding / '
+                   'memory safety on the error paths is shown by the ASan flavour on the explored scripts (thorough tier), not by a theorem.',
+     'technique': 'Lean 4 proof (kernel evaluation of the whole finite decision table + induction on the store) + exhaustive differential run of the table + '
+                  'scripted error injection with certificates',
+     'partial': ['precheck_total only modulo lax (documented requirements the library does not test)',
+                 'EV forests: canonical form after an error checked by duplicate search + model evaluation, not by Dump.check',
+                 'old-style operations (PRE_PLUS, POST_PLUS, TC_POST_IMAGE, MM_MULTIPLY, constrained/transitive closure) are not in the table']},
 }
 
 NOT_YET = {}
@@ -341,3 +434,4 @@ ORACLE_KINDS = {
 ORACLE_KINDS["iter"] = ORACLE_KINDS["*"] | {"iter-sequence", "cardinality", "node-count-edge", "edge-count",
                                             "iter-end-stays", "iter-eq-end", "missing-result"}
 ORACLE_KINDS["index"] = ORACLE_KINDS["*"] | {"get-element", "header-cardinality", "iter-sequence", "cardinality"}
+ORACLE_KINDS["io"] = ORACLE_KINDS["*"] | {'domain-from-file', 'numroots', 'leak-H', 'structure', 'leak-G', 'idxcards', 'created-kind', 'file-nodes', 'roundtrip-cross', 'numroots2', 'extra-root', 'domain-from-file-probe', 'roundtrip', 'leak-F', 'new-nodes'}
